@@ -21,7 +21,7 @@ namespace ZoektModel.C22
 structure Item where
   id : Nat
   endLine : Nat
-  deriving Repr, DecidableEq, BEq
+  deriving Repr, DecidableEq
 
 /-- a `LineMatch` or a `ChunkMatch` -/
 structure MUnit where
@@ -31,14 +31,14 @@ structure MUnit where
   firstLine : Nat            -- ChunkMatch.ContentStart.LineNumber
   sym : Option (List Nat)    -- ChunkMatch.SymbolInfo: `none` = nil
   bad : Bool                 -- set when the cut hit `log.Panicf("Failed to find enough newlines …")`
-  deriving Repr, DecidableEq, BEq
+  deriving Repr, DecidableEq
 
 structure File where
   id : Nat
   score : Nat
   ext : Nat
   units : List MUnit
-  deriving Repr, DecidableEq, BEq
+  deriving Repr, DecidableEq
 
 /-! ### limitChunkMatches: the content cut -/
 
@@ -115,22 +115,29 @@ structure TState where
 def newTruncator (maxDoc maxMatch : Nat) (chunk : Bool) : TState :=
   ⟨decide (maxDoc > 0), decide (maxMatch > 0), chunk, maxDoc, maxMatch, false⟩
 
+/-- `if docLimited { if len(fm) >= docLimit { done = true; fm = fm[:docLimit] }; docLimit -= len(fm) }` -/
+def docPhase (st : TState) (fm : List File) : List File × TState :=
+  if st.docLimited then
+    if fm.length ≥ st.docLimit then
+      (fm.take st.docLimit, { st with docLimit := st.docLimit - (fm.take st.docLimit).length, done := true })
+    else (fm, { st with docLimit := st.docLimit - fm.length })
+  else (fm, st)
+
+/-- `if matchLimited { fm, matchLimit = limitMatches(fm, matchLimit, chunk); if matchLimit <= 0 { done = true } }` -/
+def matchPhase (st : TState) (fm : List File) : List File × TState :=
+  if st.matchLimited then
+    let r := limitFiles st.chunk fm st.matchLimit
+    (r.1, { st with matchLimit := r.2, done := st.done || decide (r.2 = 0) })
+  else (fm, st)
+
 /-- one call of the truncator: `(after, hasMore, state')` -/
 def truncStep (st : TState) (fm : List File) : List File × Bool × TState :=
   if !st.docLimited && !st.matchLimited then (fm, true, st)
   else if st.done then ([], false, st)
   else
-    let (fm1, st1) :=
-      if st.docLimited then
-        let (fm', dn) := if fm.length ≥ st.docLimit then (fm.take st.docLimit, true) else (fm, st.done)
-        (fm', { st with docLimit := st.docLimit - fm'.length, done := dn })
-      else (fm, st)
-    let (fm2, st2) :=
-      if st1.matchLimited then
-        let r := limitFiles st1.chunk fm1 st1.matchLimit
-        (r.1, { st1 with matchLimit := r.2, done := st1.done || decide (r.2 = 0) })
-      else (fm1, st1)
-    (fm2, !st2.done, st2)
+    let d := docPhase st fm
+    let m := matchPhase d.2 d.1
+    (m.1, !m.2.done, m.2)
 
 /-- a truncator applied to a stream of batches (this is also `limitSender`: it forwards `after` and cancels
     when `hasMore` is false) -/
